@@ -174,3 +174,59 @@ Theorem C02_export_total_partial :
       export A d z enum cfg ds filt filtered skip req = Ok (calls, cnt).
 Proof. exact export_total_partial. Qed.
 Print Assumptions C02_export_total_partial.
+
+(* With the length check on (skip_checks off), whenever the export returns,
+   ALL stored arrays of ALL exported features hold the same number of events,
+   and that number is the event count: the number of selected events below the
+   common length (filtered), or the common length (unfiltered). *)
+Theorem C02_export_uniform_count :
+  forall (A : Type) (d z : A) (enum : Z -> A) (cfg : Z) (ds : dset A)
+         (filt : list bool) (filtered : bool) (req : list Z)
+         (calls : list (call A)) (cnt : Z),
+    wf_ds A ds -> len filt = ds_len ds ->
+    export A d z enum cfg ds filt filtered false req = Ok (calls, cnt) ->
+    exists fs,
+      lookup_all A ds (sortset req) = Ok fs
+      /\ (forall f p, In f fs -> In p (f_parts f) ->
+            len (content A calls (f_name f) (p_key p))
+            = spec_count filtered filt (spec_lim A false fs))
+      /\ (calls <> [] -> cnt = spec_count filtered filt (spec_lim A false fs)).
+Proof. exact export_uniform. Qed.
+Print Assumptions C02_export_uniform_count.
+
+(* Default feature list, metadata and flags: the stored event count is the
+   export's count; the run identifier is "<measurement identifier>-<suffix>"
+   when filtered and unchanged otherwise; the sample name is unchanged; source
+   logs / tables are stored exactly when requested; with features=None only
+   innate features are written (basin features are left to the basins); with
+   features=[] nothing is written and the count is the number of selected
+   events; the basins flag never changes what is written.  uuid4 is the oracle
+   value rnd. *)
+Theorem C02_export_meta_spec :
+  forall (A : Type) (d z : A) (enum : Z -> A) (rnd cfg : Z) (ds : dset A)
+         (innate : list Z) (sm : smeta) (filt : list bool)
+         (filtered skip logs tables basins : bool) (features : option (list Z))
+         (calls : list (call A)) (om : ometa),
+    wf_ds A ds -> len filt = ds_len ds ->
+    export_full A d z enum rnd cfg ds innate sm filt filtered skip logs tables
+                basins features = Ok (calls, om) ->
+    exists cnt,
+      export A d z enum cfg ds filt filtered skip (req_features features innate)
+      = Ok (calls, cnt)
+      /\ om_count om = cnt
+      /\ (filtered = true -> om_runid om = Some (meas_id sm, Some rnd))
+      /\ (filtered = false ->
+            om_runid om = match sm_runid sm with
+                          | Some r => Some (Some r, None)
+                          | None => None
+                          end)
+      /\ om_sample om = sm_sample sm
+      /\ (forall l, In l (om_logs om) <-> logs = true /\ In l (sm_logs sm))
+      /\ (forall t, In t (om_tables om) <-> tables = true /\ In t (sm_tables sm))
+      /\ (features = None -> forall n k, ~ In n innate -> content A calls n k = [])
+      /\ (features = Some [] ->
+            calls = [] /\ cnt = if filtered then count_true filt else ds_count ds)
+      /\ (forall b, export_full A d z enum rnd cfg ds innate sm filt filtered skip
+                      logs tables b features = Ok (calls, om)).
+Proof. exact export_meta_spec. Qed.
+Print Assumptions C02_export_meta_spec.
